@@ -206,7 +206,7 @@ def _d4(ctx):
         comps = [x for x in ast.walk(inter) if isinstance(x, (ast.GeneratorExp, ast.ListComp, ast.SetComp))]
         if comps and comps[0].generators[0].ifs:
             conj = [norm(x) for cond in comps[0].generators[0].ifs for x in flatten_boolop(cond, ast.And)]
-            ok = any("einsums_with_tensor_as_input(t)" == c for c in conj) and any("einsums_with_tensor_as_output(t)" == c for c in conj) and norm(comps[0].generators[0].iter) == "all_"
+            ok = any(c.endswith("einsums_with_tensor_as_input(t)") and not c.startswith("not") for c in conj) and any(c.endswith("einsums_with_tensor_as_output(t)") and not c.startswith("not") for c in conj) and norm(comps[0].generators[0].iter) == "all_"
     ctx.check(ok, R, fi, inter if inter is not None else fi.node, "Intermediates is not {t in All : t is some Einsum's input AND some Einsum's output}", "Intermediates = input of some and output of some Einsum")
     sh = defs.get("shared")
     ok = sh is not None and "> 1" in norm(sh) and "einsums_with_tensor_as_input(t)" in norm(sh) and "einsums_with_tensor_as_output(t)" in norm(sh)
